@@ -10,8 +10,8 @@
    repaired in /repo (33a78fa, d14529d) and are now proved at full strength for the repaired
    code: comment lines are irrelevant without a guard, and the depth guard of
    explicit_semicolon_equiv now holds inside every { } block. *)
-From Aelys Require Import Base.Tactics Extracted.AsiTokens Model.Asi Model.Literal
-                          Proofs.AsiProofs Proofs.LiteralProofs.
+From Aelys Require Import Base.Tactics Extracted.AsiTokens Extracted.ParserSets Model.Asi Model.Literal Model.ExprStart
+                          Proofs.AsiProofs Proofs.LiteralProofs Proofs.ExprStartProofs.
 Local Open Scope N_scope.
 
 (* the model is written for the lookahead the source has today (regenerated on every run) *)
@@ -77,6 +77,26 @@ Theorem C15_plusplus_needs_pending : forall st,
   emit st TPlusPlus = (if pending st then [TPlusPlus] else [TPlus; TPlus])
   /\ emit st TMinusMinus = (if pending st then [TMinusMinus] else [TMinus; TMinus]).
 Proof. exact plusplus_lemma. Qed.
+
+(* ---- redundant parentheses at the value of a value block (if-expression branches): the
+   parser's is_expression_start list, regenerated from the source, contains every token kind
+   an expression can begin with (what primary() accepts and what unary() consumes as a prefix
+   operator) except `~`; in particular wrapping the value in `(` `)` keeps it the block's value *)
+Theorem C15_expression_start_complete : forall k,
+  can_begin_expression k = true -> k <> TTilde -> expr_start_listed k = true.
+Proof. exact expr_start_complete_lemma. Qed.
+
+Theorem C15_parenthesised_value_stays_value :
+  value_block_yields TLParen = ValueOfExpression
+  /\ forall k, expr_start_listed k = true -> value_block_yields k = value_block_yields TLParen.
+Proof. exact paren_value_block_lemma. Qed.
+
+(* REFUTED for `~` (open finding KF-C15-3): `if c { ~x } else { y }` yields null, with redundant
+   parentheses `if c { (~x) } else { y }` it yields the value *)
+Theorem C15_tilde_value_block_refuted :
+  can_begin_expression TTilde = true /\ expr_start_listed TTilde = false
+  /\ value_block_yields TTilde = NullValue /\ value_block_yields TLParen = ValueOfExpression.
+Proof. exact tilde_not_listed_lemma. Qed.
 
 (* ---- integer literals *)
 (* a digit-group underscore anywhere after the first digit (decimal) or after the radix prefix
